@@ -89,6 +89,9 @@ func ApproveRegisterStateValidator(native *native.NativeService) ([]byte, error)
 	if err != nil {
 		return utils.BYTE_FALSE, fmt.Errorf("ApproveRegisterStateValidator, getStateValidatorApply error: %v", err)
 	}
+	if svListParam == nil {
+		return utils.BYTE_FALSE, fmt.Errorf("ApproveRegisterStateValidator, request %d does not exist", params.ID)
+	}
 	// check consensus signs
 	ok, err := node_manager.CheckConsensusSigns(native, APPROVE_REGISTER_STATE_VALIDATOR, utils.GetUint64Bytes(params.ID), params.Address)
 	if err != nil {
@@ -142,6 +145,9 @@ func ApproveRemoveStateValidator(native *native.NativeService) ([]byte, error) {
 	svListParam, err := getStateValidatorRemove(native, params.ID)
 	if err != nil {
 		return utils.BYTE_FALSE, fmt.Errorf("ApproveRemoveStateValidator, getStateValidatorRemove error: %v", err)
+	}
+	if svListParam == nil {
+		return utils.BYTE_FALSE, fmt.Errorf("ApproveRemoveStateValidator, request %d does not exist", params.ID)
 	}
 	// check consensus signs
 	ok, err := node_manager.CheckConsensusSigns(native, APPROVE_REMOVE_STATE_VALIDATOR, utils.GetUint64Bytes(params.ID), params.Address)
